@@ -83,7 +83,7 @@ class UDPListener:
         }, ensure_ascii=False, separators=(',', ':')).encode('utf-8')
 
     def run(self):
-        if self.startup_broadcast:
+        if self.startup_broadcast and self.is_enabled:
             self.log.debug('Sending startup UDP broadcast.')
             for port in self.ports:
                 self.sock.sendto(self._getMessage(port),
